@@ -3428,6 +3428,122 @@ def rule_count_wrap(ck, facts, nfield):
                   lfn.file, lp.get("l"))
 
 
+def rule_min_layers(ck, facts, nfield):
+    """the worker count chosen from the layer table leaves every thread the minimum number of layers the
+    balancing sweeps enforce: the forward sweep makes T(i+1) >= T(i) + c for i < t, so T(t) >= c*t, and
+    the builder asserts T.back() == number of layers - hence c*t <= number of layers for every admissible
+    (requested workers, layer-offset table size); otherwise that assertion aborts compile()"""
+    R = "E13.thread-count-min-layers"
+    cls_fns = [f for f in facts.functions if "::Worker<" not in f.cls and re.search(r"DomainAssembler<", f.cls) and f.cfg is not None and f.body is not None]
+    # 1. the assertion T.back() == E
+    found = None
+    for f in cls_fns:
+        for n in f.nodes():
+            if n.get("k") == "Call" and n.get("callee") == "FEAT::assertion" and n.get("a"):
+                c = strip(n["a"][0])
+                if c.get("k") == "Bin" and c.get("op") == "==":
+                    for l_, r_ in ((c["lhs"], c["rhs"]), (c["rhs"], c["lhs"])):
+                        l0 = resolve_alias(FX(f), l_)
+                        if l0 is not None and l0.get("k") == "MCall" and l0.get("n") == "back" and this_field(resolve_alias(FX(f), l0.get("obj"))):
+                            found = (f, n, this_field(resolve_alias(FX(f), l0.get("obj"))), r_)
+    if found is None:
+        ck.incomplete(R, "no XASSERT(<thread layers>.back() == <number of layers>) found in the set-up functions (the invariant may be stated differently)")
+        return
+    fn, anode, T, E = found
+    fx = FX(fn)
+    asg = [n for n in fn.nodes() if n.get("k") == "Assign" and n.get("op") == "=" and this_field(n["lhs"]) == nfield and strip(n["rhs"]).get("k") != "Int"]
+    apos = fx.pos(anode)
+    doms = [a for a in asg if fx.dominates(fx.pos(a), apos)]
+    if not doms:
+        ck.incomplete(R, "%s: no assignment of %s dominates the assertion on %s.back()" % (fn.name, nfield, T))
+        return
+    # 2. the minimum number of layers per thread enforced by the forward sweep
+    cs = []
+    F = VF(T)
+    for f in cls_fns:
+        hx = FX(f)
+        inits = single_def_inits(f)
+        for lp in f.nodes():
+            if lp.get("k") not in ("For", "While"):
+                continue
+            ln = loop_normal(hx, lp)
+            if ln is None or ln[3] != 1:
+                continue
+            for n in walk(lp.get("body")):
+                if n.get("k") != "Assign" or n.get("op") != "=":
+                    continue
+                try:
+                    sym = {("l", ln[0]): K, ("inits",): inits}
+                    lf, rf = sx(f, n["lhs"], sym), sx(f, n["rhs"], sym)
+                except Unknown:
+                    continue
+                d = sympy.simplify(rf - F(K))
+                if lf == F(K + 1) and d.is_Integer and int(d) > 0:
+                    cs.append((int(d), f, n))
+    if len({c_[0] for c_ in cs}) != 1:
+        ck.incomplete(R, "forward sweep `%s(i+1) = %s(i) + c` over the threads not identified (%d candidates): the minimum number of layers per thread is not known" % (T, T, len(cs)))
+        return
+    cmin = cs[0][0]
+    # 3. bounded enumeration of (requested workers, size of the layer offset table)
+    inits = single_def_inits(fn)
+    conds = path_conditions(fx, apos[0])
+    free_f, free_s = set(), set()
+    for e in [E, doms[-1]["rhs"]] + [c_ for c_, _ in conds]:
+        todo = [e]
+        while todo:
+            e_ = todo.pop()
+            for x in walk(e_):
+                if x.get("k") == "Member" and this_field(x) and "vector" not in fn.ntype(x) and is_unsigned(fn.ntype(x)):
+                    free_f.add(this_field(x))
+                if x.get("k") == "MCall" and x.get("n") == "size" and this_field(x.get("obj")):
+                    free_s.add(this_field(x.get("obj")))
+                if x.get("k") == "Ref" and x.get("dk") == "local" and x.get("d") in inits:
+                    todo.append(inits[x["d"]])
+    free_f.discard(nfield)
+    free_f, free_s = sorted(free_f), sorted(free_s)
+    bad, total, uneval = [], 0, []
+    try:
+        for vals in itertools.product(range(0, 2 * NMAX + 4), repeat=len(free_f) + len(free_s)):
+            env = Env(fields=dict(zip(free_f, vals)), sizes=dict(zip(free_s, vals[len(free_f):])))
+            env.inits = inits
+            env.fields[nfield] = ev(fn, doms[-1]["rhs"], env)
+            feasible = True
+            for c_, want in conds:
+                try:
+                    if bool(ev(fn, c_, env)) != want:
+                        feasible = False
+                        break
+                except Unknown:
+                    if relevant_condition(c_, set(free_f) | {nfield}, set()) and render(c_) not in uneval:
+                        uneval.append(render(c_))
+            if not feasible:
+                continue
+            env.wrapped = []
+            L = ev(fn, E, env)
+            if env.wrapped:
+                continue        # the layer count itself wraps: an empty offset table, not a state of a compiled assembler
+            total += 1
+            t = env.fields[nfield]
+            if cmin * t > L:
+                bad.append("%s, %s: %s = %d workers need %d layers, but there are `%s` = %d" % (
+                    ", ".join("%s=%d" % kv for kv in env.fields.items() if kv[0] != nfield), ", ".join("%s.size()=%d" % kv for kv in env.sizes.items()), nfield, t, cmin * t, render(E), L))
+    except Unknown as e:
+        ck.incomplete(R, "%s: %s" % (fn.name, e))
+        return
+    if bad and uneval:
+        ck.incomplete(R, "%s: the worker count may exceed layers/%d (%s), but the guard(s) %s could not be evaluated" % (fn.name, cmin, bad[0], uneval))
+        return
+    if total == 0:
+        ck.incomplete(R, "%s: no admissible state reaches the assertion in the enumeration" % fn.name)
+        return
+    ck.ob(R, "%s/%s*workers<=layers" % (fn.name, cmin), not bad,
+          "the sweep at line %s of %s gives every thread at least %d layers, so %s.back() >= %d * %s, and XASSERT(%s.back() == %s) at line %s aborts compile() for %s (%d of %d admissible states; smallest first)" % (
+              cs[0][2].get("l"), cs[0][1].name, cmin, T, cmin, nfield, T, render(E), anode.get("l"), bad[0], len(bad), total) if bad
+          else "%d * %s <= %s in all %d admissible states (requested workers and offset-table sizes < %d): the %d layers per thread the sweep at line %s enforces fit into the layers, XASSERT(%s.back() == %s) cannot fail for this reason" % (
+              cmin, nfield, render(E), total, 2 * NMAX + 4, cmin, cs[0][2].get("l"), T, render(E)),
+          fn.file, doms[-1].get("l"))
+
+
 # -------------------------------------------------------------------------------------------------
 # driver
 # -------------------------------------------------------------------------------------------------
@@ -3460,6 +3576,7 @@ RULES = [
     ("E14.pool-free-tasks", "who-may-call: no call path (through resolved callees, constructors of created objects and the destructors of their classes, bases and members) leads from the Task constructor/destructor and the task functions the workers call without mutual exclusion (prepare, assemble, scatter, finish - everything but combine) to a MemoryPool function that touches the pool's static map without a lock (allocate/increase/release_memory). Broken for: any job run with >= 2 workers whose task clones/copies/creates a LAFEM container (shallow clone of a job vector): data race on the reference count, use-after-free or abort.", 25),
     ("E8.clear-resets-appended", "every member container that the compile() call graph fills by appending (push_back/emplace_back) without resetting it first is reset (clear(), assignment, resize(0), swap with an empty temporary) on every path through clear(). Broken for: clear(); set_max_worker_threads(other); compile_all_elements() on one assembler - the workers index stale/too long layer or colour tables (cells never assembled, out-of-range reads).", 3),
     ("E8.clear-keeps-size", "members that the constructor sizes by the number of mesh cells and that add_element/add_mesh_part/compile subscript with mesh cell numbers are not left empty by clear(). Broken for: re-use of an assembler for another cell subset (clear(); add_element(); compile()): std::out_of_range abort.", 1),
+    ("E13.thread-count-min-layers", "layered strategies: the worker count the thread-layer builder chooses satisfies c * workers <= number of layers for every admissible (requested workers, size of the layer-offset table), where c is the minimum number of layers per thread the builder's forward sweep enforces (T(i+1) = T(i) + c) and the number of layers is the value the builder asserts T.back() to equal (offset table size - 1) - bounded enumeration under the guards dominating the assertion. Broken for: small / odd layer counts with enough requested workers: XASSERT(thread_layers.back() == num_layers) aborts compile().", 1),
     ("E13.worker-count-wrap", "work-distribution builders: a loop whose start value subtracts from the unsigned worker count cannot wrap for any admissible count the preceding assignment can produce (bounded enumeration, dominating guards respected). Broken for: meshes so small that zero workers result.", 1),
 ]
 
@@ -3531,6 +3648,7 @@ def run(tier):
         if tag == "":
             for nf in sorted(x for x in nfields if x):
                 rule_count_wrap(ck, facts, nf)
+                rule_min_layers(ck, facts, nf)
             lf = {this_field(s_.arg.get("layer_elements")) for j_ in jobs for s_ in j_.sites if s_.where == "assemble"} - {None}
             ef = {this_field(s_.arg.get("element_indices")) for j_ in jobs for s_ in j_.sites if s_.where == "assemble"} - {None}
             if len(ef) == 1:
